@@ -205,6 +205,9 @@ V = [
     ("C06", B, "shallow copy of options", IND,
      "        self.preprocessing_options = copy.deepcopy(options)",
      "        self.preprocessing_options = copy.copy(options)", "C06-R4"),
+    ("C06", B, "options-only request not applied", IND,
+     '        if "preprocessing" in kwargs or "preprocessing_options" in kwargs:',
+     '        if "preprocessing" in kwargs:', "C06-R10"),
     ("C06", N, "list() instead of copy.copy", IND,
      "        self.preprocessing = copy.copy(preprocessing)",
      "        self.preprocessing = list(preprocessing)", ""),
@@ -322,6 +325,9 @@ V = [
     ("C14", N, "subset operator", PRE,
      "            if req is not None and ((set(req) & set(act)) != set(req)):",
      "            if req is not None and not set(req) <= set(act):", ""),
+    ("C14", B, "default options dereferenced", PRE,
+     "    if options is None:\n        options = {}\n    details = {}", "    details = {}",
+     "C14-RN"),
     # ---- C15
     ("C15", B, "response not filtered", RAT,
      "            # remove corresponding responses\n            response = response[valid]\n", "", "C15-R1"),
